@@ -269,13 +269,27 @@ fn hash_value(value: &Value) -> u64 {
     use std::hash::{Hash, Hasher};
 
     let mut hasher = DefaultHasher::new();
+    // The kind of the value is part of the hash: NULL and FALSE (and an integer and the
+    // float with the same bit pattern) must not be taken for the same value.
     match value {
         Value::Null => 0u8.hash(&mut hasher),
-        Value::Bool(b) => b.hash(&mut hasher),
-        Value::Int64(i) => i.hash(&mut hasher),
-        Value::Float64(f) => f.to_bits().hash(&mut hasher),
-        Value::String(s) => s.hash(&mut hasher),
-        _ => 0u8.hash(&mut hasher),
+        Value::Bool(b) => {
+            1u8.hash(&mut hasher);
+            b.hash(&mut hasher);
+        }
+        Value::Int64(i) => {
+            2u8.hash(&mut hasher);
+            i.hash(&mut hasher);
+        }
+        Value::Float64(f) => {
+            3u8.hash(&mut hasher);
+            f.to_bits().hash(&mut hasher);
+        }
+        Value::String(s) => {
+            4u8.hash(&mut hasher);
+            s.hash(&mut hasher);
+        }
+        _ => 9u8.hash(&mut hasher),
     }
     hasher.finish()
 }
